@@ -24,7 +24,7 @@ TRUSTED_BASE = [
 ]
 ASSUMPTIONS = [
     "floats treated as reals/complex (A1)",
-    "order (number of factors/cores) and number of PARAFAC2 slices are enumerated (<=3 quick, <=4 thorough); sizes, ranks and entries universally quantified",
+    "order (number of factors/cores) and number of PARAFAC2 slices are enumerated (order <= 4 quick, <= 5 thorough; slices <= 3 / 4); sizes, ranks and entries universally quantified",
     "PARAFAC2 orthonormality test: `max|P^T P - I| > 1e-5` is an uninterpreted data comparison; the obligation is that every normally-returning path took its False branch for every slice",
 ]
 QUANTIFICATION = "forall mode sizes, ranks, slice heights (all orderings), real/complex entries; enumerated: order, #slices, unfolding mode, weights present/absent, tuple vs wrapper input, tenalg backend"
@@ -172,7 +172,7 @@ def obligations(tier):
     import tensorly.tt_matrix as ttm
     import tensorly.parafac2_tensor as p2t
 
-    maxN = 3 if tier == "quick" else 4
+    maxN = 4 if tier == "quick" else 5
     obs = []
     R = atom("R")
 
@@ -215,6 +215,11 @@ def obligations(tier):
                     return dict(w=S.input("w", [R]), fs=[S.input(f"U{k}", [n[k], R], C) for k in range(N)], mask=S.input("mask", n))
                 add(be, "cp_tensor:cp_to_tensor", f"N={N},mask", setup_m, lambda I: cpt.cp_to_tensor((I["w"], list(I["fs"])), mask=I["mask"]),
                     lambda S, I, r: [("tensor", r, SP.cp_to_tensor(S, I["w"], I["fs"], I["mask"]))], dict(order=N, mask=True), clause="≡masked contraction")
+                # the other argument forms of the masked branch: no weights (tuple with None), wrapper object with and without weights
+                for wts, wrap in ((False, False), (True, True), (False, True)):
+                    mkm = (lambda I, wts=wts: cpt.CPTensor((I["w"] if wts else None, list(I["fs"])))) if wrap else (lambda I, wts=wts: (I["w"] if wts else None, list(I["fs"])))
+                    add(be, "cp_tensor:cp_to_tensor", f"N={N},mask,weights={wts},{'CPTensor' if wrap else 'tuple'}", setup_m, lambda I, mkm=mkm: cpt.cp_to_tensor(mkm(I), mask=I["mask"]),
+                        lambda S, I, r, wts=wts: [("tensor", r, SP.cp_to_tensor(S, I["w"] if wts else None, I["fs"], I["mask"]))], dict(order=N, mask=True, weights=wts, wrapper=wrap), clause="≡masked contraction")
         # ================================================================== Tucker
         for N in range(2, maxN + 1):
             def setup(S, N=N):
@@ -365,7 +370,7 @@ def _noval(p2t, thunk):
 
 def _validators(tier, cpt, tkt, ttt, trt, ttm, p2t):
     obs = []
-    maxN = 3 if tier == "quick" else 4
+    maxN = 4 if tier == "quick" else 5
 
     def A(name):
         return atom(name)
